@@ -25,9 +25,15 @@ from checks import gencode_common as g
 from checks import semantics_common as sc
 from vlib import core
 
-FAMILIES = ("jsonschema", "openapi", "cue", "pipeline", "passes", "veneers", "sequences", "parameters")
-# small families whose cases are cheap (one JSON Schema input): run completely in every tier
-DENSE = ("sequences", "parameters")
+FAMILIES = ("jsonschema", "openapi", "cue", "pipeline", "passes", "veneers", "sequences", "parameters", "cycles", "cyclepasses", "cycleveneers",
+            "veneerpaths", "ifexpr", "discriminators")
+# small families whose cases are cheap: run completely in every tier
+DENSE = ("sequences", "parameters", "cycles", "cyclepasses", "cycleveneers", "veneerpaths", "ifexpr", "discriminators")
+VALID_INPUT_FAMILIES = ("discriminators",)
+# how a family's document enters the pipeline
+KIND = {"jsonschema": "jsonschema", "openapi": "openapi", "cue": "cue", "pipeline": "whole", "parameters": "whole", "passes": "passes",
+        "cyclepasses": "passes", "veneers": "veneers", "sequences": "veneers", "cycleveneers": "veneers", "veneerpaths": "veneers",
+        "ifexpr": "whole"}
 TIMEOUT_MS = 20000
 NPROC = 12
 BUILDER_LANGS = ("go", "python", "java", "typescript", "php")
@@ -79,6 +85,183 @@ def cue_text(expr, pos, package):
 
 WELLFORMED_CUE = ("package cfgc\n\n#Child: {cid: int}\n#Root: {\n\tname: string\n\ton?: bool\n\tkids: [...#Child]\n\tlabels: {[string]: string}\n"
                   "\tu: string | int\n}\n")
+
+
+# ---------------------------------------------------------------------------------------------- reference cycles
+def cycle_schema(n, link, entry):
+    """abstract cycle -> {name: abstract type}; types: ("ref", T) ("struct", [(name, type, required)]) ("array", t) ("map", t)
+    ("allOf", [t...]) ("oneOf", [t...]) ("nullable", t) ("default", t) ("string",) ("int",)"""
+    names = ["N%d" % (i + 1) for i in range(n)]
+    objs = {}
+    for i, name in enumerate(names):
+        nxt = ("ref", names[(i + 1) % n])
+        k = link
+        if link == "alias-then-field":
+            k = "alias" if (i == 0 and n > 1) else "field"
+        objs[name] = {
+            "alias": nxt,
+            "field": ("struct", [("next", nxt, True), ("v", ("string",), True)]),
+            "optional-field": ("struct", [("next", nxt, False), ("v", ("string",), True)]),
+            "items": ("array", nxt),
+            "map-values": ("map", nxt),
+            "allOf": ("allOf", [nxt, ("struct", [("x", ("int",), False)])]),
+            "oneOf-branch": ("oneOf", [nxt, ("string",)]),
+            "nullable": ("nullable", nxt),
+            "default": ("default", nxt),
+        }[k]
+    first = ("ref", names[0])
+    root = {
+        "root-field": ("struct", [("w", ("string",), True), ("v", first, True)]),
+        "root-optional-field": ("struct", [("w", ("string",), True), ("v", first, False)]),
+        "root-array": ("struct", [("w", ("string",), True), ("v", ("array", first), True)]),
+        "root-alias": first,
+        "unreferenced": ("struct", [("w", ("string",), True)]),
+    }[entry]
+    out = {"Root": root}
+    out.update(objs)
+    return out
+
+
+def _cycle_js(t, prefix):
+    k = t[0]
+    if k == "ref":
+        return {"$ref": prefix + t[1]}
+    if k == "string":
+        return {"type": "string"}
+    if k == "int":
+        return {"type": "integer"}
+    if k == "struct":
+        out = {"type": "object", "properties": {n: _cycle_js(ft, prefix) for n, ft, _ in t[1]}}
+        req = [n for n, _, r in t[1] if r]
+        if req:
+            out["required"] = req
+        return out
+    if k == "array":
+        return {"type": "array", "items": _cycle_js(t[1], prefix)}
+    if k == "map":
+        return {"type": "object", "additionalProperties": _cycle_js(t[1], prefix)}
+    if k == "allOf":
+        return {"allOf": [_cycle_js(x, prefix) for x in t[1]]}
+    if k == "oneOf":
+        return {"oneOf": [_cycle_js(x, prefix) for x in t[1]]}
+    if k == "nullable":
+        return {"anyOf": [_cycle_js(t[1], prefix), {"type": "null"}]} if "definitions" in prefix else {"allOf": [_cycle_js(t[1], prefix)], "nullable": True}
+    if k == "default":
+        d = _cycle_js(t[1], prefix)
+        return {"allOf": [d], "default": {}}
+    raise ValueError(k)
+
+
+def _cycle_cue(t, defs):
+    k = t[0]
+    nm = (lambda x: "#" + x) if defs else (lambda x: x)
+    if k == "ref":
+        return nm(t[1])
+    if k == "string":
+        return "string"
+    if k == "int":
+        return "int"
+    if k == "struct":
+        return "{" + ", ".join("%s%s: %s" % (n, "" if r else "?", _cycle_cue(ft, defs)) for n, ft, r in t[1]) + "}"
+    if k == "array":
+        return "[...%s]" % _cycle_cue(t[1], defs)
+    if k == "map":
+        return "{[string]: %s}" % _cycle_cue(t[1], defs)
+    if k == "allOf":       # embedding
+        inner = [_cycle_cue(x, defs) for x in t[1]]
+        return "{\n\t" + "\n\t".join(x[1:-1] if x.startswith("{") else x for x in inner) + "\n}"
+    if k == "oneOf":
+        return " | ".join(_cycle_cue(x, defs) for x in t[1])
+    if k == "nullable":
+        return "%s | null" % _cycle_cue(t[1], defs)
+    if k == "default":
+        return "*%s | string" % _cycle_cue(t[1], defs)
+    raise ValueError(k)
+
+
+def cycle_text(case):
+    objs = cycle_schema(case["n"], case["link"], case["entry"])
+    lang = case["lang"]
+    if lang == "jsonschema":
+        pre = "#/definitions/"
+        return json.dumps({"$schema": "http://json-schema.org/draft-07/schema#", "$ref": pre + "Root",
+                           "definitions": {k: _cycle_js(v, pre) for k, v in objs.items()}}, indent=1)
+    if lang == "openapi":
+        pre = "#/components/schemas/"
+        return json.dumps({"openapi": "3.0.0", "info": {"title": "t", "version": "0.0"}, "paths": {},
+                           "components": {"schemas": {k: _cycle_js(v, pre) for k, v in objs.items()}}}, indent=1)
+    defs = lang == "cue-definitions"
+    return "package cfgt\n\n" + "\n".join("%s%s: %s" % ("#" if defs else "", k, _cycle_cue(v, defs)) for k, v in objs.items()) + "\n"
+
+
+# ---------------------------------------------------------------------------------------------- discriminators
+_DISC_VALUES = {"string": ("a", "b"), "int": (1, 2), "float": (1.5, 2.5), "bool": (True, False), "mixed": ("a", 1)}
+
+
+def disc_schema(kind, sharing):
+    """-> {"A": [(field, ("const", v) | type)], "B": [...]} for the two branches of the union"""
+    c1, c2 = _DISC_VALUES[kind]
+    a = [("x", ("int",))]
+    b = [("y", ("string",))]
+    if sharing == "all-distinct":
+        a.insert(0, ("kind", ("const", c1))); b.insert(0, ("kind", ("const", c2)))
+    elif sharing == "all-same-value":
+        a.insert(0, ("kind", ("const", c1))); b.insert(0, ("kind", ("const", c1)))
+    elif sharing == "first-only":
+        a.insert(0, ("kind", ("const", c1)))
+    elif sharing == "different-names":
+        a.insert(0, ("kind", ("const", c1))); b.insert(0, ("type", ("const", c2)))
+    elif sharing == "two-candidates":
+        a[0:0] = [("akind", ("const", c1)), ("zkind", ("const", "a"))]
+        b[0:0] = [("akind", ("const", c2)), ("zkind", ("const", "b"))]
+    return {"A": a, "B": b}
+
+
+def _disc_js_type(t, openapi):
+    if t[0] == "int":
+        return {"type": "integer"}
+    if t[0] == "string":
+        return {"type": "string"}
+    v = t[1]
+    ty = "boolean" if isinstance(v, bool) else "integer" if isinstance(v, int) else "number" if isinstance(v, float) else "string"
+    return {"type": ty, "enum": [v]} if openapi else {"type": ty, "const": v}
+
+
+def disc_text(case):
+    branches = disc_schema(case["kind"], case["sharing"])
+    lang, place = case["lang"], case["place"]
+    if lang == "cue":
+        def lit(t):
+            return {"int": "int", "string": "string"}.get(t[0]) or json.dumps(t[1])
+        lines = ["package cfgt", ""]
+        for name, fs in branches.items():
+            lines.append("#%s: {%s}" % (name, ", ".join("%s: %s" % (n, lit(t)) for n, t in fs)))
+        u = "#A | #B"
+        ref = u
+        if place == "definition":
+            lines.append("#U: " + u)
+            ref = "#U"
+        v = {"field": "v: %s" % ref, "optional-field": "v?: %s" % ref, "array": "v: [...%s]" % ref, "map": "v: {[string]: %s}" % ref,
+             "definition": "v: %s" % ref}[place]
+        lines.append("#Root: {w: string, %s}" % v)
+        return "\n".join(lines) + "\n"
+    openapi = lang == "openapi"
+    pre = "#/components/schemas/" if openapi else "#/definitions/"
+    defs = {}
+    for name, fs in branches.items():
+        defs[name] = {"type": "object", "required": [n for n, _ in fs], "properties": {n: _disc_js_type(t, openapi) for n, t in fs}}
+    u = {"oneOf": [{"$ref": pre + "A"}, {"$ref": pre + "B"}]}
+    ref = u
+    if place == "definition":
+        defs["U"] = u
+        ref = {"$ref": pre + "U"}
+    vt = {"field": ref, "optional-field": ref, "array": {"type": "array", "items": ref}, "map": {"type": "object", "additionalProperties": ref},
+          "definition": ref}[place]
+    defs["Root"] = {"type": "object", "required": ["w"] + ([] if place == "optional-field" else ["v"]),
+                    "properties": {"w": {"type": "string"}, "v": vt}}
+    if openapi:
+        return json.dumps({"openapi": "3.0.0", "info": {"title": "t", "version": "0.0"}, "paths": {}, "components": {"schemas": defs}}, indent=1)
+    return json.dumps({"$schema": "http://json-schema.org/draft-07/schema#", "$ref": pre + "Root", "definitions": defs}, indent=1)
 
 
 def lang_yaml(lang, alt=False):
@@ -134,8 +317,12 @@ class Universe:
         self.n += 1
         d = os.path.join(self.dir, "c%06d" % self.n)
         os.makedirs(d)
-        fam = case["fam"]
+        fam = KIND.get(case["fam"])
         case["dir"] = d
+        if case["fam"] in ("cycles", "discriminators"):
+            fam = "cue" if case["lang"].startswith("cue") else case["lang"]
+            case["bytes"] = (cycle_text(case) if case["fam"] == "cycles" else disc_text(case)).encode()
+        case["route"] = fam
         if fam in ("jsonschema", "openapi"):
             p = os.path.join(d, "doc.json")
             text = case.get("bytes")
@@ -157,20 +344,20 @@ class Universe:
             open(p, "wb").write(case.get("bytes") or json.dumps(jv(case["doc"]), indent=1).encode())
             case["input"] = g.input_yaml("jsonschema", self.subst["@JS@"], "cfgt")
             case["transforms"] = "transformations:\n  schemas: ['%s']\n" % p
-        elif fam in ("veneers", "sequences"):
+        elif fam == "veneers":
             vd = os.path.join(d, "veneers")
             os.makedirs(vd)
             open(os.path.join(vd, "v.yaml"), "wb").write(case.get("bytes") or json.dumps(jv(case["doc"]), indent=1).encode())
             case["input"] = g.input_yaml("jsonschema", self.subst["@JS@"], "cfgt")
             case["transforms"] = "transformations:\n  builders: ['%s']\n" % vd
-        elif fam in ("pipeline", "parameters"):
+        elif fam == "whole":
             p = os.path.join(d, "pipeline.yaml")
             open(p, "wb").write(case.get("bytes") or json.dumps(self.fill(jv(case["doc"])), indent=1).encode())
             case["yaml"] = p
         return case
 
     def yaml_for(self, case, lang, alt=False):
-        if case["fam"] in ("pipeline", "parameters"):
+        if case["route"] == "whole":
             return case["yaml"]
         p = os.path.join(case["dir"], "run-%s%s.yaml" % (lang or "none", "-alt" if alt else ""))
         if not os.path.exists(p):
@@ -181,14 +368,15 @@ class Universe:
 # ----------------------------------------------------------------------------------------------
 # runner: sharded worker subprocesses, restart after a death, second run for timeouts
 # ----------------------------------------------------------------------------------------------
-def _run_shard(ctx, jobs, cwd, timeout_ms):
+def _run_shard(ctx, jobs, cwd, timeout_ms, maxstack=16):
     """Runs jobs in order in worker subprocesses; a process death or timeout exit is attributed to the job that had
     begun, the remaining jobs continue in a fresh process. -> {id: record}"""
     res = {}
     todo = list(jobs)
+    t_shard = time.time()
     while todo:
         inp = "".join(json.dumps({"id": j["id"], "yaml": j["yaml"], "timeout_ms": timeout_ms}) + "\n" for j in todo)
-        p = subprocess.Popen([ctx.worker, "c04-run"], stdin=subprocess.PIPE, stdout=subprocess.PIPE, stderr=subprocess.PIPE,
+        p = subprocess.Popen([ctx.worker, "c04-run", "-maxstack", str(maxstack)], stdin=subprocess.PIPE, stdout=subprocess.PIPE, stderr=subprocess.PIPE,
                              env=ctx.goenv(), cwd=cwd)
         try:
             out, err = p.communicate(inp.encode(), timeout=len(todo) * (timeout_ms / 1000.0 + 5) + 60)
@@ -219,10 +407,13 @@ def _run_shard(ctx, jobs, cwd, timeout_ms):
         if len(rest) == len(todo):
             raise core.Inconclusive("c04-run made no progress")
         todo = rest
+    if os.environ.get("VERIF_C04_TIMING"):
+        core.log("shard: %d jobs %.1fs, %d crashes, %d timeouts" % (len(jobs), time.time() - t_shard,
+                 sum(1 for r in res.values() if r["outcome"] == "crash"), sum(1 for r in res.values() if r["outcome"] == "timeout")))
     return res
 
 
-def _head_tail(s, n=12000):
+def _head_tail(s, n=60000):
     return s if len(s) <= 2 * n else s[:n] + "\n...\n" + s[-n:]
 
 
@@ -236,20 +427,43 @@ def run_jobs(ctx, jobs, cwd, nproc=NPROC, timeout_ms=TIMEOUT_MS):
     # "only reported after the same input timed out twice": run timeouts a second time, alone
     # A systematic hang would otherwise cost 20 s per affected input, twice: at most two inputs per signature are run the
     # second time; the others are recorded as `timeout-once` (neither a regular outcome nor a violation).
-    again = [j for j in jobs if res[j["id"]]["outcome"] == "timeout"]
+    # Stack overflows are first observed under a 16 MB stack cap (runaway recursion dies in a fraction of a second); per
+    # signature two of them are confirmed under the 64 MB cap, and a signature nothing confirms is re-run completely.
+    deep = collections.defaultdict(list)
+    for j in jobs:
+        r = res[j["id"]]
+        if r["outcome"] == "crash" and crash_info(r.get("stderr", ""))[0] == "stack-overflow":
+            deep[signature(r)[0]].append(j)
+    hung = collections.defaultdict(list)
+    for j in jobs:
+        if res[j["id"]]["outcome"] == "timeout":
+            hung[signature(res[j["id"]])[0]].append(j)
+    # confirmations run side by side (each alone in its own worker process): two inputs per signature
+    todo = [("deep", sig, j) for sig, js in sorted(deep.items()) for j in js[:2]] + \
+           [("hung", sig, j) for sig, js in sorted(hung.items()) for j in js[:2]]
+
+    def confirm(item):
+        kind, sig, j = item
+        return item, _run_shard(ctx, [j], cwd, timeout_ms, maxstack=64)[j["id"]]
     confirmed = collections.Counter()
-    for j in again:
-        sig = signature(res[j["id"]])[0]
-        if confirmed[sig] >= 2:
-            res[j["id"]]["outcome"] = "timeout-once"
-            continue
-        r2 = _run_shard(ctx, [j], cwd, timeout_ms)[j["id"]]
-        if r2["outcome"] != "timeout":
-            r2["first_run_timed_out"] = True
+    with concurrent.futures.ThreadPoolExecutor(max_workers=max(1, min(nproc, len(todo) or 1))) as ex:
+        for (kind, sig, j), r2 in ex.map(confirm, todo):
+            same = (r2["outcome"] == "timeout") if kind == "hung" else \
+                   (r2["outcome"] == "crash" and crash_info(r2.get("stderr", ""))[0] == "stack-overflow")
+            if same:
+                confirmed[sig] += 1
+                r2["confirmed"] = True
+            else:
+                r2["first_run_differed"] = res[j["id"]]["outcome"]
             res[j["id"]] = r2
-        else:
-            res[j["id"]]["confirmed"] = True
-            confirmed[sig] += 1
+    # a signature nothing confirmed: its remaining inputs are run again too (rare); confirmed hangs: the other inputs of the
+    # signature are recorded as `timeout-once` (neither a regular outcome nor a violation), overflows stay as observed
+    for sig, js in list(deep.items()) + list(hung.items()):
+        for j in js[2:]:
+            if confirmed[sig] == 0:
+                res[j["id"]] = _run_shard(ctx, [j], cwd, timeout_ms, maxstack=64)[j["id"]]
+            elif res[j["id"]]["outcome"] == "timeout":
+                res[j["id"]]["outcome"] = "timeout-once"
     return res
 
 
@@ -297,6 +511,22 @@ def recursing_frame(frames):
     return next(n for n in names if cnt[n] == best)
 
 
+def hang_frame(frames):
+    """timeout: a cog function that recurses (>= 3 occurrences among the captured frames) names the site; otherwise the leaf
+    that happened to run when the watchdog fired is arbitrary (often a template helper), and the OUTERMOST cog function below
+    the pipeline driver (the jenny / pass / rule that was entered and never left) is named"""
+    names = [cog_frame([f], _nested=True) for f in frames]
+    cog = [n for n in names if n != "outside-cog"]
+    if not cog:
+        return "outside-cog"
+    cnt = collections.Counter(cog)
+    best = max(cnt.values())
+    if best >= 3:
+        return next(n for n in cog if cnt[n] == best)
+    inner = [n for n in cog if n.split(".")[0] not in ("codegen", "common", "main")]
+    return inner[-1] if inner else cog[0]
+
+
 def panic_class(msg):
     m = msg or ""
     if "index out of range" in m:
@@ -312,7 +542,7 @@ def panic_class(msg):
     if "integer divide by zero" in m:
         return "divide-by-zero"
     if "interface conversion:" in m:
-        # the dynamic type found depends on which ill-typed value was offered, not on the defect: not part of the class
+        # the dynamic type found depends on which value was offered, not on the defect: not part of the class
         return "interface-conversion"
     if "reflect:" in m:
         return "reflect:" + re.sub(r"[^A-Za-z0-9_.*]+", "-", m.split("reflect:")[1])[:40].strip("-")
@@ -357,7 +587,7 @@ def signature(rec):
         cls, frames = crash_info(rec.get("stderr", ""))
         return "C04/%s/%s" % (recursing_frame(frames) if cls == "stack-overflow" else cog_frame(frames), cls), (rec.get("stderr", "")[:300])
     if rec["outcome"] == "timeout":
-        return "C04/%s/timeout" % recursing_frame(rec.get("stack") or []), "no result within %d ms, twice" % TIMEOUT_MS
+        return "C04/%s/timeout" % hang_frame(rec.get("stack") or []), "no result within %d ms, twice" % TIMEOUT_MS
     return None, None
 
 
@@ -393,7 +623,7 @@ def byte_mutants(rng, data, n):
 # the check
 # ----------------------------------------------------------------------------------------------
 def langs_for(case):
-    if case["fam"] in ("veneers", "sequences"):
+    if case["route"] == "veneers":
         return BUILDER_LANGS
     return g.LANGS
 
@@ -408,8 +638,11 @@ def run(ctx):
         return replay(ctx, uni)
 
     # ---- (A) TLC enumerates the structural universe
+    fams = FAMILIES
+    if os.environ.get("VERIF_C04_FAMILIES"):        # maintenance aid (never used by registered commands): restrict the universe
+        fams = tuple(f for f in FAMILIES if f in os.environ["VERIF_C04_FAMILIES"].split(",")) + ("jsonschema", "openapi")
     r = ctx.run_tlc("MalformedMC", "MalformedMC.cfg", workers=8, timeout=900,
-                    constants={"Families": "{%s}" % ",".join('"%s"' % f for f in FAMILIES)})
+                    constants={"Families": "{%s}" % ",".join('"%s"' % f for f in sorted(set(fams)))})
     cases = []
     bases = {}
     for c in core.tagged_lines(r["out"], "CASE"):
@@ -424,7 +657,9 @@ def run(ctx):
     uni.write_fixed(bases)
     total = len(cases)
     per_fam_total = collections.Counter(c["fam"] for c in cases)
-    cases.sort(key=lambda c: (c["fam"], c["base"], json.dumps(c.get("path", c.get("e"))), c.get("mut", 0), str(c.get("pos", "")), c.get("second", 0), c.get("t", 0)))
+    cases.sort(key=lambda c: (c["fam"], c["base"], json.dumps(c.get("path", c.get("e"))), c.get("mut", 0), str(c.get("pos", "")), c.get("second", 0), c.get("t", 0),
+                              c.get("n", 0), c.get("link", ""), c.get("entry", ""), c.get("lang", ""), str(c.get("kind", "")),
+                              c.get("sharing", ""), c.get("place", "")))
     if quick:
         # seeded slice: every k-th case of each family, offset by the seed; the as-is documents always
         k = 12
@@ -435,7 +670,7 @@ def run(ctx):
     # OpenAPI: cog validates the document first unless no_validate is set; both settings are inputs
     extra = []
     for c in cases:
-        if c["fam"] == "openapi" and (not quick or hash(c["cid"]) % 2 == 0):
+        if (c["fam"] == "openapi" and (not quick or hash(c["cid"]) % 2 == 0)) or (c["fam"] in ("cycles", "discriminators") and c["lang"] == "openapi"):
             c2 = dict(c)
             c2["cid"] = c["cid"] + "-nv"
             c2["no_validate"] = True
@@ -474,15 +709,15 @@ def run(ctx):
     # ---- stage 1: parsers, consolidation, input and common transformations (no output language)
     t0 = time.time()
     by_cid = {c["cid"]: c for c in cases}
-    WHOLE = ("pipeline", "parameters")        # the case IS the pipeline configuration: one run
-    stage1 = [{"id": c["cid"] + "|none", "yaml": uni.yaml_for(c, None)} for c in cases if c["fam"] not in WHOLE]
-    stage1 += [{"id": c["cid"] + "|config", "yaml": c["yaml"]} for c in cases if c["fam"] in WHOLE]
+    # kind "whole": the case IS the pipeline configuration: one run
+    stage1 = [{"id": c["cid"] + "|none", "yaml": uni.yaml_for(c, None)} for c in cases if c["route"] != "whole"]
+    stage1 += [{"id": c["cid"] + "|config", "yaml": c["yaml"]} for c in cases if c["route"] == "whole"]
     res = run_jobs(ctx, stage1, uni.dir)
     t1 = time.time()
     # ---- stage 2: every output language on the cases whose first stage returned
     stage2 = []
     for c in cases:
-        if c["fam"] in WHOLE:
+        if c["route"] == "whole":
             continue
         if res[c["cid"] + "|none"]["outcome"] != "files":
             continue
@@ -512,6 +747,10 @@ def run(ctx):
             slow.append((jid, rec["ms"]))
         sig, what = signature(rec)
         if sig:
+            # witness class: documents that are VALID by construction (unions of struct references with constant fields of
+            # every scalar kind) crashing is another matter than the same site crashing on an ill-typed document
+            if c["fam"] in VALID_INPUT_FAMILIES:
+                sig += "/valid-input"
             sig_info[sig].append((jid, what))
     for sig, items in sorted(sig_info.items()):
         jid, what = items[0]
@@ -521,7 +760,7 @@ def run(ctx):
                                                 by_cid[j.split("|")[0]].get("pos", "")) for j, _ in items)
         rp = {"family": c["fam"], "class": c["class"], "keyword": c.get("keyword"), "path": c.get("path"), "stage": stage,
               "yaml_text": open(uni.yaml_for(c, None if stage in ("none", "config") else stage.replace("-alt", ""), alt=stage.endswith("-alt"))
-                                if c["fam"] not in ("pipeline", "parameters") else c["yaml"], errors="replace").read(),
+                                if c["route"] != "whole" else c["yaml"], errors="replace").read(),
               "files": case_files(c), "stack": res[jid].get("stack") or crash_info(res[jid].get("stderr", ""))[1][:30]}
         ctx.fail(sig, "%s: %s [%s stage %s; %d run(s); inputs: %s]" % (res[jid]["outcome"], str(what)[:200], c["fam"], stage, len(items),
                                                                        ", ".join("%s x%d" % kv for kv in kws.most_common(6))), rp)
@@ -556,7 +795,7 @@ def run(ctx):
     for fam in FAMILIES:
         if sum(per_fam[fam].values()) == 0:
             vac.append("family:" + fam)
-    for cls in ("absent", "ill-typed", "degenerate", "expression", "as-is", "bytes", "sequence", "environment"):
+    for cls in ("absent", "ill-typed", "degenerate", "expression", "as-is", "bytes", "sequence", "environment", "cycle", "config-cycle", "path", "if-expression", "discriminator"):
         if sum(per_class[cls].values()) == 0:
             vac.append("class:" + cls)
     for lang in g.LANGS:
@@ -564,7 +803,7 @@ def run(ctx):
             vac.append("language:" + lang)
     if outcome["files"] == 0 or outcome["error"] == 0:
         vac.append("both regular outcomes (files, error) must occur")
-    if vac:
+    if vac and not os.environ.get("VERIF_C04_FAMILIES"):
         raise core.Inconclusive("vacuous: %s" % vac)
     samples = []
     for jid in order:
@@ -694,7 +933,7 @@ ASSUMPTIONS = [
     "thorough adds the complementary flag setting (any_as_interface, skip_runtime and therefore no builders); builder-transformation cases "
     "run for the five languages that have builders",
     "bounded time = 20 s per run (typical 30 ms), reported only when the same input times out twice; the worker's maximum goroutine stack "
-    "is lowered to 64 MB so that runaway recursion is observed as a stack overflow within seconds",
+    "is lowered to 16 MB so that runaway recursion is observed as a stack overflow within a fraction of a second; two inputs per stack-overflow signature are confirmed under a 64 MB cap",
     "OpenAPI documents are run with validation on and (thorough: all, quick: half) with no_validate",
     "YAML configuration is written in YAML's JSON subset; remote inputs (url:) are not exercised (no network)",
 ]
